@@ -356,6 +356,51 @@ def var_bytes(name, n):
     return SymBytes([var_int(f"{name}[{i}]", 0, 255) for i in range(n)], False)
 
 
+def _slice_of(p):
+    """(base, hi, lo) if p is an 8-bit slice Extract(hi, lo, base) possibly wrapped the way to_bytes wraps it"""
+    while True:
+        if z3.is_app_of(p, z3.Z3_OP_EXTRACT):
+            hi, lo = p.params()
+            inner = p.arg(0)
+            if hi - lo == 7:
+                # look through Extract(7,0, ZeroExt/Concat(0, Extract(...)))
+                if lo == 0 and (z3.is_app_of(inner, z3.Z3_OP_ZERO_EXT) or (
+                        z3.is_app_of(inner, z3.Z3_OP_CONCAT) and inner.num_args() == 2 and z3.is_bv_value(inner.arg(0))
+                        and inner.arg(0).as_long() == 0)):
+                    cand = inner.arg(inner.num_args() - 1)
+                    if cand.size() == 8:
+                        p = cand
+                        continue
+                return inner, hi, lo
+        return None
+
+
+def _rejoin(parts):
+    """big-endian list of 8-bit terms that are consecutive slices of ONE base term -> that slice of the base"""
+    first = _slice_of(parts[0])
+    if first is None:
+        return None
+    base, hi, lo = first
+    top = hi
+    for p in parts[1:]:
+        sl = _slice_of(p)
+        if sl is None or sl[1] != lo - 1 or not z3.eq(sl[0], base):
+            return None
+        lo = sl[2]
+    if lo == 0 and top == base.size() - 1:
+        return base
+    if lo == 0:
+        inner = None
+        if z3.is_app_of(base, z3.Z3_OP_ZERO_EXT):
+            inner = base.arg(0)
+        elif z3.is_app_of(base, z3.Z3_OP_CONCAT) and base.num_args() == 2 and z3.is_bv_value(base.arg(0)) \
+                and base.arg(0).as_long() == 0:
+            inner = base.arg(1)
+        if inner is not None and inner.size() == top + 1:
+            return inner
+    return z3.Extract(top, lo, base)
+
+
 def from_bytes(data, byteorder="big", *, signed=False):
     byteorder = getattr(byteorder, "value", byteorder)
     items = items_of(data)
@@ -373,7 +418,9 @@ def from_bytes(data, byteorder="big", *, signed=False):
             b = lift(b)
             wt += b.w
             parts.append(z3.Extract(7, 0, b.e) if b.e.size() >= 8 else z3.ZeroExt(8 - b.e.size(), b.e))
-        e = z3.Concat(*parts) if len(parts) > 1 else parts[0]
+        e = _rejoin(parts)
+        if e is None:
+            e = z3.Concat(*parts) if len(parts) > 1 else parts[0]
         n = 8 * len(parts)
         if signed:
             from .core import mkint
